@@ -185,14 +185,30 @@ class State:
                     self.truth[t] = truth
                     self.facts.append((t, truth, ins))
                     return True
+            if bv is not None and pred.startswith("s") and pred != "sext" and bv < (1 << 31) and self._nonneg(a):
+                pred = "u" + pred[1:]
             if bv is not None and not pred.startswith("s"):
-                if not self._bound(a, pred, bv, truth):
-                    return False
+                x = a
+                while True:
+                    if not self._bound(x, pred, bv, truth):
+                        return False
+                    # the same bound holds for the operand of a value-preserving cast
+                    if isinstance(x, tuple) and x[0] == "cast" and x[1] == "zext":
+                        x = x[3]
+                    elif isinstance(x, tuple) and x[0] == "cast" and x[1] == "trunc" and type_bits(x[2]) and \
+                            self.hi.get(x[3], mask(64)) <= mask(type_bits(x[2])):
+                        x = x[3]
+                    else:
+                        break
             elif pred == "eq" and truth and a in self.eqc and b not in self.eqc and not is_const(b):
                 pass
         self.truth[t] = truth
         self.facts.append((t, truth, ins))
         return True
+
+    def _nonneg(self, a):
+        """term is a zero-extended (hence non-negative as signed) value"""
+        return isinstance(a, tuple) and a[0] == "cast" and a[1] == "zext"
 
     def _bound(self, a, pred, c, truth):
         lo = self.lo.get(a, 0)
@@ -663,6 +679,8 @@ class Executor:
             a = T(ops[0])
             b = T(ops[1]) if len(ops) > 1 else None
             bits = type_bits(ins.type)
+            if op == "ashr" and b is not None and is_const(a) and is_const(b) and bits and not (a[1] >> (bits - 1)):
+                return ("c", a[1] >> b[1] if b[1] < 128 else 0)
             if b is not None and is_const(a) and is_const(b) and bits and op in ("add", "sub", "mul", "and", "or", "xor", "shl", "lshr"):
                 x, y = a[1], b[1]
                 r = {"add": x + y, "sub": x - y, "mul": x * y, "and": x & y, "or": x | y, "xor": x ^ y,
